@@ -192,3 +192,21 @@ _reg(
     "DESIGN.md 2.6, 3/C02",
     "Exploration: seeded sampling of a bounded graph grammar around every rewrite rule plus every registered export, per-pass attribution through interposition on ir_optimizations.",
 )
+
+_reg(
+    "C17",
+    "exploration",
+    "cases = (1) the decision procedure is asked about every ordered pair of onnx_ir.DataType members; for every accepted (T,U) all bit "
+    "patterns of T (<= 16 bit, bool and 4-bit types: exhaustive; 32 bit: exhaustive in 2**24 chunks in thorough, boundary + random in quick; "
+    "64 bit: boundary + random, never exhaustive) are pushed through numpy/ml_dtypes casts T->U->T and, for 8/16-bit sources, through ONNX "
+    "Runtime's own Cast; (2) 132 x 4 Cast->Cast graphs (all pairs of 12 element types x {plain, intermediate is graph output, two consumers, "
+    "captured by an If body}) through the real optimize_graph with ORT before/after; (3) Range(start,limit,delta)->Cast(U)->Cast(i64) graphs "
+    "over an integer box (quick [-5,5]^3 x 5 scalings, thorough [-20,20]^3) plus dtype-boundary triples and shape-op chains through the real "
+    "remove_redundant_casts_ir, compared with numpy.arange. evaluations = values pushed through a round trip + graphs optimised; non-trivial = "
+    "an accepted pair / a folded graph; distinct = (T,U) or graph id.",
+    (50000, 150, 1000000, 800),
+    "exhaustive value-domain monitor: decision procedure's answer vs brute-force numpy/ml_dtypes and ONNX Runtime Cast round trips; Cast->Cast and Range graphs through the real pass",
+    "DESIGN.md 3/C17",
+    "Exploration, exhaustive for source types up to 16 bits in quick and up to 32 bits in thorough; 64-bit sources sampled.",
+    exhaustive={"thorough": "all bit patterns of every source type up to 32 bits for every accepted intermediate type", "quick": "all bit patterns of every source type up to 16 bits for every accepted intermediate type"},
+)
